@@ -51,7 +51,7 @@ type Param struct {
 
 type Call struct {
 	Target  string  `json:"target"`            // fully qualified template name
-	Style   int     `json:"style,omitempty"`   // 0 relative (.name) when same namespace else qualified; 1 qualified; 2 via alias; 3 name="…" attribute
+	Style   int     `json:"style,omitempty"`   // 0 relative (.name) when same namespace else qualified; 1 qualified; 2 via alias; 3 name="…" attribute; 4 via an alias of a proper prefix of the namespace
 	DataAll bool    `json:"dataall,omitempty"` // data="all"
 	Data    *Expr   `json:"data,omitempty"`    // data="$expr"
 	Params  []Param `json:"params,omitempty"`
@@ -88,6 +88,9 @@ type Cmd struct {
 	Desc       string      `json:"desc,omitempty"`
 	Meaning    string      `json:"meaning,omitempty"`
 	Style      int         `json:"style,omitempty"`
+	// Gap is layout (white space and comments) written where the grammar takes no content: between
+	// {switch} / {plural} and the first {case}, between {call}, its {param}s and {/call}.
+	Gap string `json:"gap,omitempty"`
 }
 
 type ParamDecl struct {
